@@ -148,17 +148,21 @@ def run_case(ctx, st, rng, key, wrong_key, key_id):
     # the state is the end of the third attempt on the same object: st["first"] is the specified outcome of the first
     # attempt (with `given`), st["second"] that of the second one (right key, the associated data it was sealed with),
     # st["phase"] that of the third (st["third"]: a wrong key, or other associated data)
-    attrs_v = {"len": s["len"], "tamper": s["tamper"], "key": g["key"], "given_aad": g["aad"], "sealed_aad": s["aad"], "fill": s.get("fill", "slack")}
+    attrs_v = {"len": s["len"], "tamper": s["tamper"], "key": g["key"], "given_aad": g["aad"], "sealed_aad": s["aad"], "fill": s.get("fill", "slack"), "verify": g["verify"]}
     det = {"state": {"sealed": s, "given": g, "spec_first": st["first"], "spec_second": st["second"], "third": st["third"], "spec_third": st["phase"]}, "attr_names": [a[1] for a in attrs], "padding": info["padding"]}
     try:
-        env = Envelope(io.BytesIO(blob))
+        env = Envelope(io.BytesIO(blob), verify=g["verify"]) if not g["verify"] or rng.random() < 0.5 else Envelope(io.BytesIO(blob))
     except Exception as e:  # noqa: BLE001
         env = None
         det["error"] = f"{type(e).__name__}: {e}"[:200]
+    garbles = s["tamper"] in ("iv", "ct-first", "ct-last", "ct-padding", "cryptofooter")     # Envelope!Garbles
     aad2 = (b"ESXConfiguratioN" if aad else b"unexpected") if s["tamper"] == "aad" else aad
     third = (3, st["phase"], wrong_key, aad2) if st["third"] == "wrong-key" else (3, st["phase"], key, b"SomethingElse")
     for attempt, want_phase, k_, a_ in ((1, st["first"], gkey, gaad), (2, st["second"], key, aad2), third):
         want_ok = want_phase == "returned"
+        if not g["verify"] and garbles and k_ == key and s["tamper"] != "keyhash":
+            continue     # tag verification off and the ciphertext / its trimming altered: the outcome is unspecified (Envelope!DecryptVerify)
+        header_alt = not g["verify"] and k_ == key and s["tamper"] in ("attr-value", "attr-name", "attr-type")   # may be refused; if not, the payload
         got, ok = None, False
         if env is not None:
             try:
@@ -166,6 +170,11 @@ def run_case(ctx, st, rng, key, wrong_key, key_id):
                 ok = True
             except Exception as e:  # noqa: BLE001
                 det["error"] = f"{type(e).__name__}: {e}"[:200]
+        if header_alt:
+            if ok and got != payload:
+                ctx.violation({**attrs_v, "fail": "roundtrip", "attempt": attempt}, {**det, "attempt": attempt, "got_len": len(got), "want_len": n})
+                return
+            continue
         if want_ok and (not ok or got != payload):
             ctx.violation({**attrs_v, "fail": "roundtrip", "attempt": attempt}, {**det, "attempt": attempt, "got_len": (len(got) if got is not None else None), "want_len": n})
             return
